@@ -54,6 +54,9 @@ TERM_START_CTX = ("LBRACE", "LPAREN", "CHOICE_OP", "SEQUENCE_OP")
 TERMINAL_START_CTX = (*TERM_START_CTX, "ASSIGN_OP", "POSITIVE_PREDICATE", "NEGATIVE_PREDICATE")
 
 
+TOKEN_REGEX = {"MODIFIER": "RE_MODIFIER", "NUMBER": "RE_NUMBER", "INTEGER": "RE_INTEGER", "CHAR": "RE_CHAR", "TAG": "RE_TAG", "IDENTIFIER": "RE_IDENTIFIER"}
+
+
 def among(last, names) -> z3.BoolRef:
     return z3.Or(*[last == kcode(n) for n in names])
 
@@ -216,14 +219,16 @@ class ScannerModel(FunctionSpec):
             if kind is not None:
                 run.oblige(f"adj.okpair[{kind}]", okpair(last, kind))
                 run.setf(sc, "$last", wrap(z3.IntVal(kcode(kind)), "int"))
-                if kind == "MODIFIER":
+                if kind in TOKEN_REGEX:
+                    # the value of such a token is what that regex matched (so it lies in the language proved for it:
+                    # C10 lex.*): digits for NUMBER (int() cannot fail), a modifier symbol for MODIFIER, ...
                     import importlib
 
-                    want = importlib.import_module("pest.grammar.scanner").RE_MODIFIER.pattern
+                    want = getattr(importlib.import_module("pest.grammar.scanner"), TOKEN_REGEX[kind]).pattern
                     src = run.ghost.get("scan_results", {})
                     v = args[1]
                     pat = next((p_ for nm_, p_ in src.items() if isinstance(v, Sym) and nm_ in v.t.sexpr()), None)
-                    run.oblige("adj.modifier_value_from_RE_MODIFIER", pat == want, note=f"value from pattern {pat!r}")
+                    run.oblige(f"adj.value_from_regex[{kind}]", pat == want, note=f"value from pattern {pat!r}, wanted {TOKEN_REGEX[kind]}")
             run.setf(sc, "start", wrap(pos, "int"))
             return None
         if name == "error":
@@ -457,7 +462,7 @@ TRUSTED = [
     "C14's splitlines BRIDGE; str.rstrip opaque",
 ]
 ASSUMPTIONS = ["partial correctness: termination of the scanner's state loop and recursion depth on nested parentheses are not decided"]
-BOUNDED = ["Parser.from_grammar end to end (grammar Parser's recursive descent, constructors, optimizer, message rendering): corpus of bundled grammars, every truncation, single-character mutations and token soups (quick: ~6k texts; thorough: ~60k) - stand-in, not proved"]
+BOUNDED = ["Parser.from_grammar end to end (Expression constructors, optimizer, message rendering; the grammar Parser's recursive descent is proved): corpus of bundled grammars, every truncation, single-character mutations and token soups (quick: ~6k texts; thorough: ~60k) - stand-in, not proved"]
 
 
 # the token-adjacency clauses belong to C10 (they are what its token-layer proof assumes of scanner output)
@@ -474,8 +479,21 @@ class ScannerAdjacency(ScannerMethod):
         self.label = f"{SCANNER}.{method}[token adjacency]"
 
 
+def parser_exception_specs(tier):
+    """the grammar Parser's recursive descent (executed for C10's token-layer proof) kept here for exception freedom:
+    a path that ends in anything but PestGrammarSyntaxError generates a `noraise.*` obligation with goal False"""
+    from . import c10_parser
+
+    out = []
+    for sp in c10_parser.specs(tier):
+        sp.keep_clauses = r"^noraise|requires"
+        sp.label = f"{sp.label or sp.target}[exceptions]"
+        out.append(sp)
+    return out
+
+
 def specs(tier):
-    return [*[ScannerMethod(m) for m in SCANNER_METHODS], ErrorContext(), *[CursorSpec(m) for m in ("current", "next", "peek", "eat")],
+    return [*parser_exception_specs(tier), *[ScannerMethod(m) for m in SCANNER_METHODS], ErrorContext(), *[CursorSpec(m) for m in ("current", "next", "peek", "eat")],
             c12.ParseHexDigits(), c12.DecodeEscape(), c12.DecodeHexChar(), c12.UnescapeString()]
 
 
